@@ -146,6 +146,61 @@ Example C13_check_rejects_min_printed_as_max :
   = verdict 2 5 4 (2%Z :: diag).
 Proof. eexists. vm_compute. reflexivity. Qed.
 
+(* Three more kernel-checked rejections of that line with one field falsified:
+   an accumulator that is empty after empty.Combine(empty) reporting Mean = NaN although a fresh one reports 0
+   (operation 6, observable 4) - round 1 compared nothing on an empty accumulator; *)
+Example C13_check_rejects_nan_mean_of_empty : exists t diag, check_C13
+  [
+     13; 3; 0; 0; 0; 0; 0; 0; 0; 0; 0; 8; 2; 2; 0; 0; 0; 0; 0; 0; 0; 0; 0; 0; 0; 0; 4617315517961601024; 1;
+     4617315517961601024; 4617315517961601024; 4617315517961601024; 4617315517961601024;
+     18444492273895866368; 18444492273895866368; 4617315517961601024; 4607182418800017408; 0; 0;
+     4619567317775286272; 2; 4622945017495814144; 4617315517961601024; 4619567317775286272;
+     4618441417868443648; 4611686018427387904; 4609047870845172685; 4618534600193596473; 4611686018427387904;
+     0; 1; 4607182418800017408; 1; 4607182418800017408; 4607182418800017408; 4607182418800017408;
+     4607182418800017408; 18444492273895866368; 18444492273895866368; 4607182418800017408;
+     4607182418800017408; 1; 0; 1; 3; 4623507967449235456; 4607182418800017408; 4619567317775286272;
+     4616564918023705941; 4621443817620023979; 4614061780864084146; 4617315517961601024; 4613937818241073152;
+     2; 1; 0; 1; 4607182418800017408; 4607182418800017408; 4607182418800017408; 4607182418800017408;
+     18444492273895866368; 18444492273895866368; 4607182418800017408; 4607182418800017408; 1; 2; 2; 0; 0; 0;
+     0; 9221120237041090561; 0; 0; 0; 0; 1; 0; 0; 6; 4628011567076605952; 4607182418800017408;
+     4619567317775286272; 4616564918023705941; 4620092737731812830; 4613335507286852003; 4617315517961601024;
+     4618441417868443648 ]%Z = verdict 2 t 6 (4%Z :: diag).
+Proof. eexists. eexists. vm_compute. reflexivity. Qed.
+(* StdDev = NaN for six values (operation 7, observable 6) - round 1 had a branch that could accept a NaN; *)
+Example C13_check_rejects_nan_stddev : exists t diag, check_C13
+  [
+     13; 3; 0; 0; 0; 0; 0; 0; 0; 0; 0; 8; 2; 2; 0; 0; 0; 0; 0; 0; 0; 0; 0; 0; 0; 0; 4617315517961601024; 1;
+     4617315517961601024; 4617315517961601024; 4617315517961601024; 4617315517961601024;
+     18444492273895866368; 18444492273895866368; 4617315517961601024; 4607182418800017408; 0; 0;
+     4619567317775286272; 2; 4622945017495814144; 4617315517961601024; 4619567317775286272;
+     4618441417868443648; 4611686018427387904; 4609047870845172685; 4618534600193596473; 4611686018427387904;
+     0; 1; 4607182418800017408; 1; 4607182418800017408; 4607182418800017408; 4607182418800017408;
+     4607182418800017408; 18444492273895866368; 18444492273895866368; 4607182418800017408;
+     4607182418800017408; 1; 0; 1; 3; 4623507967449235456; 4607182418800017408; 4619567317775286272;
+     4616564918023705941; 4621443817620023979; 4614061780864084146; 4617315517961601024; 4613937818241073152;
+     2; 1; 0; 1; 4607182418800017408; 4607182418800017408; 4607182418800017408; 4607182418800017408;
+     18444492273895866368; 18444492273895866368; 4607182418800017408; 4607182418800017408; 1; 2; 2; 0; 0; 0;
+     0; 0; 0; 0; 0; 0; 1; 0; 0; 6; 4628011567076605952; 4607182418800017408; 4619567317775286272;
+     4616564918023705941; 4620092737731812830; 9221120237041090561; 4617315517961601024; 4618441417868443648 ]%Z = verdict 2 t 7 (6%Z :: diag).
+Proof. eexists. eexists. vm_compute. reflexivity. Qed.
+(* Weight = Count + 1 (operation 2, observable 8). *)
+Example C13_check_rejects_weight_off_by_one : exists t diag, check_C13
+  [
+     13; 3; 0; 0; 0; 0; 0; 0; 0; 0; 0; 8; 2; 2; 0; 0; 0; 0; 0; 0; 0; 0; 0; 0; 0; 0; 4617315517961601024; 1;
+     4617315517961601024; 4617315517961601024; 4617315517961601024; 4617315517961601024;
+     18444492273895866368; 18444492273895866368; 4617315517961601024; 4607182418800017408; 0; 0;
+     4619567317775286272; 2; 4622945017495814144; 4617315517961601024; 4619567317775286272;
+     4618441417868443648; 4611686018427387904; 4609047870845172685; 4618534600193596473; 4613937818241073152;
+     0; 1; 4607182418800017408; 1; 4607182418800017408; 4607182418800017408; 4607182418800017408;
+     4607182418800017408; 18444492273895866368; 18444492273895866368; 4607182418800017408;
+     4607182418800017408; 1; 0; 1; 3; 4623507967449235456; 4607182418800017408; 4619567317775286272;
+     4616564918023705941; 4621443817620023979; 4614061780864084146; 4617315517961601024; 4613937818241073152;
+     2; 1; 0; 1; 4607182418800017408; 4607182418800017408; 4607182418800017408; 4607182418800017408;
+     18444492273895866368; 18444492273895866368; 4607182418800017408; 4607182418800017408; 1; 2; 2; 0; 0; 0;
+     0; 0; 0; 0; 0; 0; 1; 0; 0; 6; 4628011567076605952; 4607182418800017408; 4619567317775286272;
+     4616564918023705941; 4620092737731812830; 4613335507286852003; 4617315517961601024; 4618441417868443648 ]%Z = verdict 2 t 2 (8%Z :: diag).
+Proof. eexists. eexists. vm_compute. reflexivity. Qed.
+
 (* Non-vacuity: a three-accumulator history with an empty part on each side of a Combine. *)
 Example C13_history_example :
   let ops := [SAdd 0 5; SAdd 0 7; SCombine 1 0; SCombine 1 2; SAdd 2 1; SCombine 2 1; SCombine 2 1] in
